@@ -25,7 +25,13 @@ func stripErrPathPrefix(err error, name, mountSubPath string) error {
 		}
 	case strings.HasSuffix(mountSubPath, "/"+name):
 		prefix := strings.TrimSuffix(mountSubPath, name)
-		translate = func(p string) string { return strings.TrimPrefix(p, prefix) }
+		translate = func(p string) string {
+			if p+"/" == prefix {
+				// the error is about the base directory itself (it is not a directory, say): the view's root
+				return "."
+			}
+			return strings.TrimPrefix(p, prefix)
+		}
 	case mountSubPath == ".":
 		// the mount point itself: the inner FS sees its own root
 		translate = func(p string) string {
